@@ -99,6 +99,11 @@ func genFree(t *rapid.T, v6 bool, mode string) FreeSpec {
 	default:
 		f.K = rapid.Uint64Range(0, 1<<16).Draw(t, "free-k")
 	}
+	if v6 && rapid.IntRange(0, 11).Draw(t, "free-wider") == 0 {
+		f.Kind = "wider"
+		f.Sub = rapid.IntRange(0, 127).Draw(t, "wider-len")
+		return f
+	}
 	if v6 {
 		if rapid.IntRange(0, 2).Draw(t, "free-subp") == 0 {
 			f.Sub = rapid.IntRange(1, 16).Draw(t, "free-sub")
